@@ -8,13 +8,13 @@ ALL = ["C%02d" % i for i in range(1, 21)]
 CLAIMED = {
     "C19": dict(
         category="other",
-        text="Path and structure rules on the ElastiCache client: possibly-undefined analysis with exception edges (an ERROR reply must surface as the memcached error), the coupled reset of clients / hasher / failing and dead sets on every path of reconfigure_nodes before any advertised node is added, every advertised node added unconditionally and normalised, replaced clients and the discovery client closed on all exits, host/port selection by use_vpc, config command and terminator wiring, and the C03 accumulate-then-search rules for the reader that delivers the reply. Routing of key corpora after reconfiguration sequences is a runtime statement.",
+        text="Path and structure rules on the ElastiCache client: possibly-undefined analysis with exception edges (an ERROR reply must surface as the memcached error), the coupled reset of clients / hasher / failing and dead sets on every path of reconfigure_nodes before any advertised node is added, every advertised node added unconditionally and normalised, replaced clients and the discovery client closed on all exits, host/port selection by use_vpc, config command and terminator wiring, what escapes when the config command fails (the error itself, discovery client closed), raw_command ending the reply at the end token it was given (framing rows), and the C03 rules (accumulate-then-search, segmentation rows) for the reader that delivers the reply. Routing of key corpora after reconfiguration sequences is a runtime statement.",
         note="Trusted: CPython ast; path interpreter; C11/C12 for routing once hasher nodes == clients keys. The rule models the reset-then-add structure of reconfigure_nodes; an incremental implementation would need a different rule.",
         technique="definite-assignment and coupled-state path analysis; structural wiring rules",
     ),
     "C15": dict(
         category="other",
-        text="The serializer dispatch is evaluated abstractly over 13 exact-type classes: encoder and flags chosen by the writer, decoder chosen by the reader for those flags with and without the COMPRESSED bit, whether the pair is a type-preserving inverse pair, that the serialized form derives from the value and is bytes; flags are distinct single bits below 2**16; CompressedSerde's decision is evaluated over all 18 orderings of (len vs threshold, threshold vs 0, compressed vs original) for 'flag iff compressed form stored' and 'never store the larger form', and decompress iff the bit is set; pickle protocol wiring by def-use. Library round trips (pickle, codecs, zlib) are trusted.",
+        text="The serializer dispatch is evaluated abstractly over 13 exact-type classes: encoder and flags chosen by the writer, decoder chosen by the reader for those flags with and without the COMPRESSED bit, whether the pair is a type-preserving inverse pair, that the serialized form derives from the value and is bytes; flags are distinct single bits below 2**16; CompressedSerde's decision is evaluated over all 18 orderings of (len vs threshold, threshold vs 0, compressed vs original) for 'flag iff compressed form stored' and 'never store the larger form', and decompress iff the bit is set; pickle protocol wiring by def-use; a lossy error handler on encode/decode is not an inverse pair; a compressor that raises is followed through the handlers; the default serde (no functions configured) is the identity with flags 0. Library round trips (pickle, codecs, zlib) are trusted.",
         note="Trusted: CPython ast; path interpreter; inverse-pair table for the library encoders.",
         technique="finite abstract evaluation over exact-type classes and length orderings; def-use",
     ),
@@ -38,9 +38,9 @@ CLAIMED = {
     ),
     "C03": dict(
         category="other",
-        text="Carry-over state rules of the three readers and three exchange loops on every path: liveness of received chunks and leftovers (none overwritten or left behind before flowing into the result, the next reader or the returned leftover), EINTR retried at the single recv site and nothing else swallowed, no dependence on the receive size, the segment reader's end-token search runs on an accumulating buffer with an offset that goes back at least len(token)-1 bytes (linear normal form), the sized reader touches payload by position only. NOT decided: the byte arithmetic of _readvalue/_readline across pieces and equality of results over all segmentations (numeric loop invariants).",
-        note="Trusted: CPython ast; path interpreter; chunk-liveness transfer functions.",
-        technique="liveness / def-use path analysis of received chunks + structural rules on the search buffer",
+        text="Carry-over state rules of the three readers and three exchange loops on every path: liveness of received chunks and leftovers (none overwritten or left behind before flowing into the result, the next reader or the returned leftover), EINTR retried at the single recv site and nothing else swallowed, no dependence on the receive size, the segment reader's end-token search runs on an accumulating buffer with an offset that goes back at least len(token)-1 bytes (linear normal form), the sized reader touches payload by position only. Segmentation rows (R6): each reader interpreted over exact byte strings for every segmentation of short reply streams and every leftover split (about 30 000 rows: all strings over {a, CR, LF} up to 4-5 bytes, sized values of every content up to 2-3 bytes with tails and truncations, seven end tokens with partial-token bodies): same result and leftover, no piece asked for beyond the completing one, hang-up raises. NOT decided: streams beyond those (sizes around the receive size), and the composition of readers in the exchange loops other than by the liveness rules.",
+        note="Trusted: CPython ast; path interpreter; chunk-liveness transfer functions; exact transformers for bytes operations on constants (Python's own).",
+        technique="liveness / def-use path analysis of received chunks + structural rules on the search buffer + exhaustive abstract interpretation of the readers over exact byte strings (all segmentations of bounded streams)",
     ),
     "C12": dict(
         category="other",
@@ -92,7 +92,7 @@ CLAIMED = {
     ),
     "C01": dict(
         category="other",
-        text="Path and structure rules that are necessary conditions of reply ownership: close-before-escape on every ordinary-exception exit after sendall, noreply <=> no read coupled with the wire token at all 17 call sites; every public method, interpreted end to end against the reply the protocol defines for its own commands (0/1/2 keys, lists and one-shot iterators), returns only after the last item of that reply, never asks for more, and reads nothing with noreply; no receive state outside locals, only Client touches sockets. Parsing under all segmentations is C03; a misbehaving server is not decided.",
+        text="Path and structure rules that are necessary conditions of reply ownership: close-before-escape on every ordinary-exception exit after sendall, noreply <=> no read coupled with the wire token at all 17 call sites; every public method, interpreted end to end against the reply the protocol defines for its own commands (0/1/2 keys, lists and one-shot iterators), returns only after the last item of that reply, never asks for more, and reads nothing with noreply; no receive state outside locals, only Client touches sockets; the reply to a raw command is read once and ended at the caller's end token. Parsing under segmentation is C03, whose liveness rules and segmentation rows are re-run here; a misbehaving server is not decided.",
         note="Trusted: CPython ast; path interpreter; wire-fragment evaluator; Client.close does not raise (decided by C06.R6).",
         technique="must-pass-through on exception edges + abstract wire-fragment evaluation + end-to-end reply-consumption evaluation + who-may-call",
     ),
